@@ -219,11 +219,20 @@ pub fn c13(d: &Digest, out: &mut Vec<Violation>) {
                 vk(out, "C13", "deadlock", format!("dropping an unexhausted iterator hung: {}", blocked.join("; ")), "F4");
                 return;
             }
-            // F7: next() on an iterator created while or after the store shut down
+            // F7: next() on an iterator that was registered after the reducer loop had released
+            // its subscribers: iter() had not returned when the reducer took its last item from
+            // the dispatch queue (the shutdown marker), and the reducer loop is over
             if on == BlockOn::ChanRecv(*ch) {
                 let ic = d.calls.iter().find(|c| matches!(c.op, OpK::Iter { it: i, .. } if i == *it));
                 if let (Some(ic), Some(fs)) = (ic, first_shutdown) {
-                    if ic.ret_or_max() > fs {
+                    let OpK::Iter { store, .. } = ic.op else { continue };
+                    let sd = &d.stores[store];
+                    let last_take = sd.rtid.and_then(|rt| d.ev.iter().rposition(|e| e.tid == rt && matches!(&e.k, K::ChRecv { chan, .. } if Some(*chan) == sd.dchan)));
+                    let loop_over = match sd.rtid {
+                        Some(rt) => !d.run.out.blocked.iter().any(|x| x.tid == rt && !matches!(BlockOn::from(x.obj), BlockOn::ChanRecv(c) if Some(c) == sd.pool_chan)),
+                        None => true,
+                    };
+                    if ic.ret_or_max() > fs && ic.ret_or_max() > last_take.unwrap_or(0) && loop_over {
                         vk(out, "C13", "deadlock", format!("next() on an iterator created during/after shutdown hung: {}", blocked.join("; ")), "F7");
                         return;
                     }
